@@ -125,7 +125,8 @@ def c03(cx):
         if now[0] != what[0] or (what[0] == "file" and (now[1] != what[1] or now[2] != what[2])) or (what[0] == "symlink" and now[1] != what[1]):
             return "%r (outside every export subtree) was modified" % (b"/".join(rel),)
     for rel, what in cx.rr.after.items():
-        if rel not in cx.rr.before and not inside(rel) and not any(s[:len(rel)] == rel for s in cx.subtrees):
+        # (the export directory and everything above it exist before every valid run: only a subtree's own root may appear)
+        if rel not in cx.rr.before and not inside(rel) and not any(s == rel for s in cx.subtrees):
             return "%r appeared outside the export subtrees" % (b"/".join(rel),)
         if rel not in cx.rr.before and inside(rel):
             sub = next(s for s in cx.subtrees if rel[:len(s)] == s)
